@@ -10,7 +10,7 @@
 
 use std::cell::RefCell;
 use std::collections::VecDeque;
-use std::future::poll_fn;
+use std::future::{Future, poll_fn};
 use std::pin::Pin;
 use std::rc::Rc;
 use std::sync::atomic::{AtomicBool, Ordering::SeqCst};
@@ -34,6 +34,7 @@ use crate::world;
 
 pub const OUTSIDER: u64 = 77;
 
+#[allow(dead_code)] // `gossip` is only kept alive
 pub struct Parts {
     pub gossip: Gossip,
     pub handle: GossipHandle,
@@ -147,6 +148,10 @@ impl Consumer {
     /// Poll the real subscription exactly once with a fresh waker (forwarding to `forward`), then
     /// bring the model up to date from the channel's own accounting and check what came out.
     pub fn poll(&mut self, forward: Option<&Waker>) -> Outcome {
+        self.poll_with(forward).0
+    }
+
+    fn poll_with(&mut self, forward: Option<&Waker>) -> (Outcome, Arc<Fwd>) {
         let fwd = Arc::new(Fwd { to: Mutex::new(forward.cloned()), woken: AtomicBool::new(false) });
         let waker = Waker::from(fwd.clone());
         let mut cx = Context::from_waker(&waker);
@@ -172,7 +177,7 @@ impl Consumer {
             ctx::probe("invalid_frame_skipped");
         }
 
-        match r {
+        let outcome = match r {
             Poll::Ready(Some(msg)) => {
                 self.last_pending = None;
                 self.check_yield(&msg, &consumed, lag_consumed);
@@ -204,7 +209,8 @@ impl Consumer {
                 self.last_pending = Some(PendingInfo { registered, consumed: what });
                 Outcome::Pending
             }
-        }
+        };
+        (outcome, fwd)
     }
 
     /// Valid frames among the consumed ones which were not yielded.
@@ -244,16 +250,29 @@ impl Consumer {
 
     /// One `next().await` of a task that is only woken through the waker it handed to
     /// `poll_next` (and by the timeout).
+    ///
+    /// Not `tokio::time::timeout(bound, next())`: that polls the inner future once more when the
+    /// deadline fires, which is exactly the outside help a stalled subscription would need. Here
+    /// the subscription is polled at the start of the call and afterwards only when the waker it
+    /// was given has been woken; the deadline only ends the observation.
     pub async fn next_bounded(&mut self, bound: Duration) -> Result<Outcome, ()> {
-        tokio::time::timeout(
-            bound,
-            poll_fn(|cx| match self.poll(Some(cx.waker())) {
-                Outcome::Pending => Poll::Pending,
-                o => Poll::Ready(o),
-            }),
-        )
+        let sleep = tokio::time::sleep(bound);
+        tokio::pin!(sleep);
+        let mut last: Option<Arc<Fwd>> = None;
+        poll_fn(|cx| {
+            let woken = last.as_ref().map(|f| f.woken.load(SeqCst)).unwrap_or(true);
+            if woken {
+                match self.poll_with(Some(cx.waker())) {
+                    (Outcome::Pending, fwd) => last = Some(fwd),
+                    (o, _) => return Poll::Ready(Ok(o)),
+                }
+            }
+            if sleep.as_mut().poll(cx).is_ready() {
+                return Poll::Ready(Err(()));
+            }
+            Poll::Pending
+        })
         .await
-        .map_err(|_| ())
     }
 }
 
@@ -448,7 +467,8 @@ pub const TAMPERS: [Tamper; 8] = [Tamper::FlipByte, Tamper::Resign, Tamper::Auth
 /// `ForeignValid` are invalid by construction (checked); a flipped byte is judged like any frame.
 pub fn tamper(base: &PoolFrame, t: Tamper) -> (Vec<u8>, &'static str) {
     let d = wire::decode(&base.raw).expect("base frame decodes");
-    let outsider = signing_key(OUTSIDER);
+    // A key that is not the author of the base frame.
+    let outsider = signing_key(if base.key == OUTSIDER { OUTSIDER + 1 } else { OUTSIDER });
     let (raw, kind, must_be_invalid): (Vec<u8>, &'static str, bool) = match t {
         Tamper::FlipByte => {
             let mut raw = base.raw.clone();
@@ -520,43 +540,32 @@ pub fn clock_tick() {
     set_wall_us((wall_us() + d).min(CLOCK_MAX_US));
 }
 
-/// A wall-clock fault (value 0 = plain tick).
+/// A wall-clock fault (value 0 = plain tick). The fault counted is what the clock actually did.
 pub fn clock_fault() {
     let now = wall_us();
-    match ctx::choose("clock.fault", 7) {
-        0 => clock_tick(),
-        1 => {
-            ctx::fault("clock.freeze");
-            ev!("wall clock frozen at {now}");
+    let target = match ctx::choose("clock.fault", 7) {
+        0 => {
+            clock_tick();
+            return;
         }
-        2 => {
-            let d = *ctx::pick("clock.back", &[1u64, 2, 1_000, 3_000_000]);
-            set_wall_us(now.saturating_sub(d));
-            ctx::fault("clock.jump_back");
-            ev!("wall clock jumps back by {d} us to {}", wall_us());
-        }
-        3 => {
-            let d = *ctx::pick("clock.back.far", &[86_400_000_000u64, 31_536_000_000_000, 1_700_000_000_000_000]);
-            set_wall_us(now.saturating_sub(d));
-            ctx::fault("clock.jump_back");
-            ev!("wall clock jumps back by {d} us to {}", wall_us());
-        }
-        4 => {
-            let d = *ctx::pick("clock.fwd", &[3_600_000_000u64, 31_536_000_000_000, 3_000_000_000_000_000]);
-            set_wall_us((now + d).min(CLOCK_MAX_US));
-            ctx::fault("clock.jump_forward");
-            ev!("wall clock jumps forward by {d} us to {}", wall_us());
-        }
-        5 => {
-            set_wall_us(*ctx::pick("clock.abs", &[0u64, 1, 1_000_000]));
-            ctx::fault("clock.jump_back");
-            ev!("wall clock set to {} (just after the UNIX epoch)", wall_us());
-        }
-        _ => {
-            // Back and forth: returns exactly to an earlier reading.
-            set_wall_us(simcore::libc_seams::EPOCH_US);
-            ctx::fault("clock.jump_back");
-            ev!("wall clock reset to the reading at start-up {}", wall_us());
-        }
+        1 => now,
+        2 => now.saturating_sub(*ctx::pick("clock.back", &[1u64, 2, 1_000, 3_000_000])),
+        3 => now.saturating_sub(*ctx::pick("clock.back.far", &[86_400_000_000u64, 31_536_000_000_000, 1_700_000_000_000_000])),
+        4 => (now + *ctx::pick("clock.fwd", &[3_600_000_000u64, 31_536_000_000_000, 3_000_000_000_000_000])).min(CLOCK_MAX_US),
+        // Just after the UNIX epoch.
+        5 => *ctx::pick("clock.abs", &[0u64, 1, 1_000_000]),
+        // Exactly the reading at start-up again.
+        _ => simcore::libc_seams::EPOCH_US,
+    };
+    set_wall_us(target);
+    if target < now {
+        ctx::fault("clock.jump_back");
+        ev!("wall clock jumps back by {} us to {target}", now - target);
+    } else if target == now {
+        ctx::fault("clock.freeze");
+        ev!("wall clock frozen at {now}");
+    } else {
+        ctx::fault("clock.jump_forward");
+        ev!("wall clock jumps forward by {} us to {target}", target - now);
     }
 }
